@@ -251,3 +251,87 @@ pub fn replay_g(case: &serde_json::Value) -> bool {
     println!("script:\n{script}\nSIGUSR1 at system call {k} of the main shell\nend={:?}\ntrace={:?}\nstderr={}", r.end, r.trace_by_proc(), r.stderr);
     true
 }
+
+// Part (h): what a program the shell executes starts with. On `exec` the kernel resets caught
+// signals to their default action but keeps the signal mask and the ignored signals: after any
+// trap history, whichever way the program is run (as a command in a child, by `exec` in the shell
+// itself, in a subshell, asynchronously, in a substitution, in a pipeline, from a function), it
+// must start with no signal blocked, a signal ignored iff the user's trap ignores it (or it is
+// SIGINT / SIGQUIT of an asynchronous list), and nothing else changed. The `sigs` stub records the
+// mask and the dispositions of the simulated process at its `execve`.
+
+const H_TRAPS: [(&str, &str, D); 9] = [
+    ("USR1", "'p t'", D::Catch), ("USR1", "''", D::Ignore), ("USR1", "-", D::Default),
+    ("INT", "'p t'", D::Catch), ("INT", "''", D::Ignore), ("INT", "-", D::Default),
+    ("TERM", "'p t'", D::Catch), ("TERM", "''", D::Ignore), ("TERM", "-", D::Default),
+];
+const H_RUNNERS: [(&str, bool, bool); 9] = [
+    // (text, the program replaces the shell that holds the traps, asynchronous)
+    ("sigs", false, false),
+    ("exec sigs", true, false),
+    ("command exec sigs", true, false),
+    ("f() { exec sigs; }; f", true, false),
+    ("(exec sigs)", false, false),
+    ("sigs &\nwait", false, true),
+    ("x=$(sigs)", false, false),
+    ("sigs | cat", false, false),
+    ("{ exec sigs; } &\nwait", false, true),
+];
+
+/// Returns the number of runs.
+pub fn part_h(ctx: &Ctx) -> u64 {
+    let mut hists: Vec<Vec<usize>> = (0..H_TRAPS.len()).map(|i| vec![i]).collect();
+    for i in 0..H_TRAPS.len() {
+        for j in 0..H_TRAPS.len() {
+            hists.push(vec![i, j]);
+        }
+    }
+    hists.push(vec![]);
+    let n = AtomicU64::new(0);
+    hists.par_iter().for_each(|h| {
+        for (runner, replaces_shell, asynchronous) in H_RUNNERS {
+            let mut script = String::new();
+            let mut user: BTreeMap<&str, D> = BTreeMap::new();
+            for t in h {
+                let (sig, action, d) = H_TRAPS[*t];
+                script.push_str(&format!("trap {action} {sig}\n"));
+                user.insert(sig, d);
+            }
+            script.push_str(runner);
+            script.push('\n');
+            let _g = case_guard(format!("signal state at exec: {script}"));
+            let r = vsh::run_once(&Setup::script(&script), &Default::default());
+            n.fetch_add(1, Relaxed);
+            let case = json!({"part": "h", "script": script});
+            let Some(line) = r.all_trace().into_iter().find(|t| t.starts_with("sigs exec ")) else {
+                ctx.violation("c11:executed-program-signal-state", &format!("{script:?}: the program was not executed: {:?} stderr={:?}", r.end, r.stderr), case);
+                return;
+            };
+            let blocked_empty = line.contains("blocked=[]");
+            let disp: BTreeMap<&str, &str> = line.rsplit(' ').next().unwrap_or("").split(',').filter_map(|e| e.split_once(':')).collect();
+            let mut wrong = vec![];
+            for s in ["USR1", "INT", "TERM", "QUIT"] {
+                let ignored = user.get(s) == Some(&D::Ignore) || (asynchronous && matches!(s, "INT" | "QUIT"));
+                let got = disp.get(s).copied().unwrap_or("?");
+                // a caught signal is reset to the default action by the kernel
+                let ok = if ignored { got == "Ignore" } else { got == "Default" || got == "Catch" };
+                if !ok {
+                    wrong.push(format!("SIG{s} is {got}"));
+                }
+            }
+            if !blocked_empty || !wrong.is_empty() {
+                let key = if !blocked_empty && wrong.is_empty() && replaces_shell { "c11:program-run-by-exec-in-the-shell-starts-with-trapped-signals-blocked" } else { "c11:executed-program-signal-state" };
+                ctx.violation(key, &format!("{script:?}: the program starts with {line}{}", if wrong.is_empty() { String::new() } else { format!(" ({})", wrong.join(", ")) }), case);
+                return;
+            }
+        }
+    });
+    n.load(Relaxed)
+}
+
+pub fn replay_h(case: &serde_json::Value) -> bool {
+    let Some(script) = case["script"].as_str() else { return false };
+    let r = vsh::run_once(&Setup::script(script), &Default::default());
+    println!("script:\n{script}\nend={:?}\ntrace={:?}\nstderr={}", r.end, r.trace_by_proc(), r.stderr);
+    true
+}
